@@ -492,6 +492,70 @@ def big_block_faults(ctx, r):
                 expect_failure(ctx, "input-fault", s, res, "block of %d bytes at height %d truncated after %d bytes (%s)" % (ln, tgt, c - off, where), want_height=m.get("errheight"))
 
 
+def crowded_block_faults(ctx, r):
+    """(iv, continued) a block with 253 or more transactions — its transaction count is a three-byte CompactSize — as the LAST block
+    of its blk file, cut inside that count (after the header, after the 0xfd marker, after one byte of the count) and just after it:
+    a count that cannot be read is a read failure at that height, never zero transactions"""
+    for cb in FILE_CBS:
+        for ntx in (253, 300):
+            blocks = small_chain(r, "bitcoin", 3)
+            tgt = 2
+            for j in range(ntx - len(blocks[tgt].txs)):
+                blocks[tgt].txs.append(K.Tx([(GC.rb(r, 32), j, b"\x01\x01", 7)], [(j, b"\x51")]))
+            prev = blocks[0].hash()
+            for b in blocks[1:]:
+                b.prev = prev
+                b.merkle_root = None
+                prev = b.hash()
+            base = K.Scenario(coin="bitcoin", callback=cb)
+            GC.simple_layout(base, blocks)
+            name = K.blkname(0)
+            off = next(o for o, d in base.files[name]["segs"] if d[8:] == blocks[tgt].enc()) + 8
+            ln = len(blocks[tgt].enc())
+            for c in (off + 80, off + 81, off + 82, off + 83, off + 84, off + 90):
+                s = K.Scenario(coin="bitcoin", callback=cb)
+                s.kvs = list(base.kvs)
+                s.files = {nm: {"size": f["size"], "segs": list(f["segs"])} for nm, f in base.files.items()}
+                f = s.files[name]
+                f["size"] = c
+                f["segs"] = [(o, d[:max(0, c - o)]) for o, d in f["segs"] if o < c]
+                s.meta = {"fault": "crowded-block-truncated", "ntx": ntx, "cut": c - off, "len": ln}
+                m = K.run_model([s])[0]
+                res = s.run_impl()
+                ctx.mark(("crowded-trunc", cb, ntx, c - off), True)
+                ctx.families["input-fault:crowded-block-truncated"] += 1
+                if m["exit"] == 0:
+                    ctx.disagree("input-fault", dict(bb.describe(s), fault="crowded-block-truncated"), {"exit": res.exit}, {"exit": m["exit"], "note": "model accepts a truncated block"}, False, {"scenario": bb.scenario_dump(s), "observable": "model-exit", "replay_kind": "expect-failure"})
+                    continue
+                expect_failure(ctx, "input-fault", s, res, "block of %d transactions at height %d truncated after %d bytes" % (ntx, tgt, c - off), want_height=m.get("errheight"))
+
+
+def big_output_limits(ctx, r):
+    """(ii, continued) dumps larger than the 4 MB the callbacks buffer (tens of thousands of rows): RLIMIT_FSIZE below, at and above
+    the buffer size and the file sizes — a limit the output does not fit under is a failure without final names, however the rows
+    were handed to the kernel"""
+    a = [b"\x76\xa9\x14" + GC.rb(r, 20) + b"\x88\xac" for _ in range(50)]
+    blocks = []
+    for h in range(45):
+        blocks.append(K.Block([K.Tx([(b"\0" * 32, 0xffffffff, bytes([2, h, 7]), 0xffffffff)], [(10**6 + j, a[(j * 7 + h) % 50]) for j in range(1000)])], time=1231006505 + 600 * h))
+    prev = b"\0" * 32
+    for b in blocks:
+        b.prev = prev
+        prev = b.hash()
+    for cb in FILE_CBS:
+        s = K.Scenario(coin="bitcoin", callback=cb)
+        GC.simple_layout(s, blocks)
+        s.meta = {"big-output": cb}
+        ref = undisturbed(s)
+        sizes = {n: len(b) for n, b in ref.final_files().items()}
+        if ref.exit != 0 or not sizes:
+            ctx.disagree("rlimit-fsize", bb.describe(s), {"exit": ref.exit}, {"expected": "exit 0"}, True, {"scenario": None, "observable": "undisturbed-run-failed"})
+            continue
+        big = max(sizes.values())
+        for L in sorted(set([65536, 1 << 20, 3999999, 4000000, 4000001, big // 2, big - 1, big, big + 4096])):
+            limit_once(ctx, s, ref, L)
+
+
 def degenerate_ranges(ctx, r):
     """(vi) runs that have nothing, or a single block, to process (--start at / above the tip, --end far beyond it): whatever the
     exit status is, status 0 must mean final-named files and no *.tmp left — the files are created before the first block is read"""
@@ -550,6 +614,8 @@ def correspondence(ctx):
     crash_family(ctx, r)
     input_fault_family(ctx, r)
     big_block_faults(ctx, r)
+    crowded_block_faults(ctx, r)
+    big_output_limits(ctx, r)
     degenerate_ranges(ctx, r)
     rerun_family(ctx, r)
 
